@@ -156,6 +156,7 @@ def hyp_case(draw, big):
         case["as_str"] = draw(st.booleans())
     if len(seq) <= 60:
         case["warm"] = draw(gens.warmups())
+    case["paste"] = draw(gens.paste_opt())
     return case
 
 
